@@ -15,6 +15,10 @@ ENGINES = [
      "kind_free_text": "TLA+ model of the time-series storage and npz off-loading; configuration product enumerated by TLC and run on the real code"},
     {"name": "addressing", "path": "spec/Addressing.tla spec/Trace_Addressing.tla vh/addrdrv.py vh/netbuild.py", "serves_properties": ["C10"],
      "kind_free_text": "TLA+ model of slot allocation; address tables of real Systems validated by TLC"},
+    {"name": "codegen", "path": "spec/Codegen.tla spec/Scen_Codegen.tla spec/Trace_Codegen.tla spec/EqBinding.tla vh/codegendrv.py vh/codegen_step.py vh/eqdrv.py",
+     "serves_properties": ["C02"],
+     "kind_free_text": "TLA+ model of the generated-code staleness protocol, sequences replayed on a scratch pycode directory; declared "
+                       "equation strings evaluated independently against the executed generated functions on a TLC-enumerated lattice"},
     {"name": "build", "path": "spec/Build.tla spec/Trace_Build.tla spec/Scen_Build.tla vh/builddrv.py", "serves_properties": ["C19"],
      "kind_free_text": "TLA+ model of device registration; add sequences enumerated by TLC, executed on real Systems, validated by TLC"},
     {"name": "perunit", "path": "spec/PerUnitK.tla spec/PerUnit.tla spec/Scen_PerUnit.tla spec/Trace_PerUnit.tla vh/pudrv.py", "serves_properties": ["C11"],
@@ -258,6 +262,17 @@ CHECKS["C13"] = dict(
     note=TRUSTED.replace("vh/tdsdrv.py: ranks of floats, booleans computed on floats", "vh/iodrv.py: table comparison at 1e-12 relative, power flow at 1e-8")
          + "Not decided: agreement of the PSS/E raw/dyr and MATPOWER parsers with an independent reading of the source files (needs a "
            "second parser). Cases pointing to side files (TimeSeries) are not moved.")
+
+CHECKS["C02"] = dict(
+    engine="codegen", design_ref="DESIGN.md 4 (C02)",
+    technique="TLC model checking of Codegen (checksum staleness protocol) + TLC-enumerated operation sequences replayed on a scratch "
+              "pycode directory with a versioned probe model, one fresh interpreter per step, validated by TLC against the Codegen "
+              "actions + independent evaluation of every declared equation string against the executed generated functions",
+    text="Codegen.tla (edit / prepare / System() with and without automatic regeneration / corrupt / delete) is model-checked for "
+         "'stale code is never silently used'; every operation sequence of length <= 3 and a residue class of length 5 is replayed on "
+         "the real code with a probe model whose residual, explicit and iterative initialiser and service strings carry a version, "
+         "and TLC decides from the recorded numbers which version actually ran; regeneration is compared byte for byte.",
+    note=TRUSTED.replace("vh/tdsdrv.py: ranks of floats, booleans computed on floats", "vh/codegendrv.py: identification of the version from computed numbers; vh/eqdrv.py: the independent expression evaluator"))
 
 NOT_APPLICABLE = [
     {"property_id": "C07", "reason": "numeric accuracy / convergence order against closed-form and matrix-exponential references: no "
